@@ -152,6 +152,9 @@ class FoldedData:
         self._dm = dm
         self._accel = accel
         self._check_input()
+        # Values the cube was folded with: drifts are measured from these
+        self._fold_period = period
+        self._fold_dm = dm
         self._tph_shifts = np.zeros(self.nsubints, dtype=np.int32)
         self._fph_shifts = np.zeros(self.nsubbands, dtype=np.int32)
 
@@ -298,7 +301,7 @@ class FoldedData:
         self._period = period
 
     def _get_dmdelays(self, newdm: float) -> np.ndarray:
-        delta_dm = newdm - self.dm
+        delta_dm = newdm - self._fold_dm
         if delta_dm == 0:
             drifts = -1 * self._fph_shifts
             self._fph_shifts.fill(0)
@@ -307,7 +310,7 @@ class FoldedData:
         freqs = (
             np.arange(self.nsubbands, dtype=np.float64) * chan_width + self.header.fch1
         )
-        tsamp = self.period / self.nbins
+        tsamp = self._fold_period / self.nbins
         drifts = params.compute_dmdelays(
             freqs,
             delta_dm,
@@ -321,10 +324,10 @@ class FoldedData:
 
     def _get_pdelays(self, newperiod: float) -> np.ndarray:
         dbins = (
-            (newperiod / self._period - 1)
+            (newperiod / self._fold_period - 1)
             * self.header.tobs
             * self.nbins
-            / self._period
+            / self._fold_period
         )
         if dbins == 0:
             drifts = -1 * self._tph_shifts
